@@ -259,7 +259,10 @@ static int apply(pool_t *p, int op, const char *desc)
     }
     if (op < OP_XFORM) {
         int i = (op - OP_ALPHA) / 3, j = (op - OP_ALPHA) % 3;
-        if (m->im[i].crefs < 1 || (j != NONE && m->im[j].crefs < 1)) return 0;
+        /* the caller needs a reference to the owner; the map may also be one the caller has let go of but that is still alive because it is attached to this
+         * very owner (re-setting the current map, e.g. to move its origin) */
+        if (m->im[i].crefs < 1) return 0;
+        if (j != NONE && m->im[j].crefs < 1 && !(j != i && m->im[j].alive && (pixman_image_t *)p->img[i]->common.alpha_map == p->img[j])) return 0;
         int accept;
         if (j == NONE) accept = 1;
         else if (j == i) accept = 0;                                         /* an image cannot be its own alpha map */
@@ -385,7 +388,12 @@ static int op_enabled(uint64_t canon, int op)
     if (op == OP_PROBE) return 1;
     if (op < OP_UNREF) { int i = op - OP_REF; return crefs[i] == 1; }
     if (op < OP_ALPHA) return crefs[op - OP_UNREF] >= 1;
-    if (op < OP_XFORM) { int i = (op - OP_ALPHA) / 3, j = (op - OP_ALPHA) % 3; return crefs[i] >= 1 && (j == NONE || crefs[j] >= 1); }
+    if (op < OP_XFORM) {
+        int i = (op - OP_ALPHA) / 3, j = (op - OP_ALPHA) % 3;
+        if (crefs[i] < 1) return 0;
+        if (j == NONE || crefs[j] >= 1) return 1;
+        return j != i && (canon >> (18 * j) >> 2 & 1) && (int)(canon >> (18 * i) >> 8 & 3) == 1 + j;
+    }
     if (op < OP_GINS) {
         int grp = (op - OP_XFORM) / (NV * NI), i = (op - OP_XFORM) % (NV * NI) / NV, v = (op - OP_XFORM) % NV;
         if (crefs[i] < 1) return 0;
